@@ -84,7 +84,7 @@ def place(name, size, salt=0):
     if name in ("cap0", "ba-cap0"):
         b = traced("np" if name == "cap0" else "ba", 0)
         return Placed(dict(_buffer=b), b)
-    if name in ("hole", "dirtyhole", "dirtyhole2", "ba-hole", "explicit"):
+    if name in ("hole", "dirtyhole", "dirtyhole2", "ba-hole", "explicit", "explicit-i8"):
         kind = "ba" if name.startswith("ba") else "np"
         pre, post = 13, 5
         b = traced(kind, pre + size + post, default_alignment=1)
@@ -100,9 +100,10 @@ def place(name, size, salt=0):
         if name in ("dirtyhole", "dirtyhole2", "ba-hole"):
             b.update_from_buffer(h, comp(poison(size, salt + 3)))
         nb = [(a, pre, pa), (c, post, pc)]
-        if name == "explicit":
+        if name in ("explicit", "explicit-i8"):
             b.log.clear()
-            return Placed(dict(_buffer=b, _offset=h), b, h, nb)
+            # explicit-i8: the offset is given as a narrow numpy integer (offset + field offsets leave its range)
+            return Placed(dict(_buffer=b, _offset=h if name == "explicit" else np.int8(h)), b, h, nb)
         b.free(h, size)
         b.log.clear()
         return Placed(dict(_buffer=b, _offset="packed"), b, h, nb)
